@@ -15,7 +15,11 @@ RULE = ("chains whose outputs mix OP_RETURN scripts (payload lengths 0..300 exha
         "compared, as exact text and order, with the model (Bitcoin/testnet3: only valid UTF-8; fork coins: lossy). Plus the payload "
         "families through the script-eval tool mode. distinct = (coin rules, push form, length class, payload class, printed?) signatures")
 
-UTF8_SAMPLES = ["héllo wörld", "日本語のテキスト", "emoji \U0001F600\U0001F680", "Ελληνικά", "mixed ascii + ü + 漢", " nbsp", "tab\there"]
+UTF8_SAMPLES = ["héllo wörld", "日本語のテキスト", "emoji \U0001F600\U0001F680", "Ελληνικά", "mixed ascii + ü + 漢", " nbsp", "tab\there",
+                # valid UTF-8 that looks like trouble: the replacement character itself (already-mangled text), its neighbours, noncharacters,
+                # the byte order mark, NUL and other C0 / C1 controls, the first and last scalar values of each encoded length, bidi controls
+                "Z\ufffdrich", "\ufffd", "\ufffc\ufffd", "\ufffe\uffff", "\ufeffbom first", "nul\x00inside", "\x7f\x80\x9f", "\u07ff\u0800", "\ud7ff\ue000",
+                "\U00010000\U0010ffff", "\u202eoverride\u202c", "\u2028line\u2029para", "e\u0301 combining"]
 BAD_UTF8 = [b"\xff\xfe", b"\xc3\x28", b"abc\xe2\x82", b"\xf0\x9f\x92", b"\xed\xa0\x80", b"\x80abc", b"abc\xffdef", b"\xc0\xaf", b"\xf5\x80\x80\x80"]
 
 
